@@ -90,3 +90,17 @@ Record policy_ok (p u : option hdr) : Prop := {
   (* no parameter name present in both headers *)
   pol_disjoint : forall a b c, p = Some a -> u = Some b -> hdr_names a c = true -> hdr_names b c = true -> False;
 }.
+
+(* ---- JwkDocumentExt::create_jws (identity_storage/src/storage/jwk_document_ext.rs): the protected header it assembles
+   from JwsSignatureOptions, as far as the policy looks at it.  alg always; kid always (the option's or the method id);
+   jwk when attach_jwk; b64 = false together with crit = ["b64"] only when the option says false; typ always (the option's
+   or "JWT"); cty / url / nonce when given; the custom map as given. ---- *)
+Record sigopts := { so_attach_jwk : bool; so_b64 : option bool; so_cty : bool; so_url : bool; so_nonce : bool;
+                    so_custom : option (list Z); so_detached : bool }.
+Definition create_jws_header (o : sigopts) : hdr :=
+  {| h_alg := true;
+     h_b64 := match so_b64 o with Some false => Some false | _ => None end;
+     h_crit := match so_b64 o with Some false => Some [N_B64] | _ => None end;
+     h_common := [5] ++ (if so_attach_jwk o then [4] else []) ++ [10] ++ (if so_cty o then [11] else [])
+                 ++ (if so_url o then [12] else []) ++ (if so_nonce o then [13] else []);
+     h_custom := so_custom o |}.
